@@ -13,7 +13,7 @@ from ..cfg import cfg_of
 from ..model import own_nodes
 from ..values import pattern, match, match_any, find, contains, show, subterms
 from ..domains import polarity, POS, NEG, ZERO
-from .base import obligation, src, callee_name
+from .base import obligation, src, callee_name, if_branches, split_if
 from .C04 import pattern_term, returns, enclosing_loop, _inside
 
 BB = 'elfi.methods.inference.romc:NDimBoundingBox'
@@ -349,14 +349,15 @@ def c19_d(ctx):
     ctx.check(m is not None, sp, 'prior times indicator sum', 'pr * indicator_sum',
               'the unnormalised density is {}'.format(show(t)[:100]), fn=sp, node=rr[0])
     sel = [n for n in own_nodes(sp.node) if isinstance(n, ast.If) and
-           ex.term(n.test) == pattern_term('self.surrogate_used')]
+           if_branches(ex, n, 'self.surrogate_used') is not None]
     both = only = None
     if sel:
-        for s in sel[0].body:
+        _bt, _bf = if_branches(ex, sel[0], 'self.surrogate_used')
+        for s in _bt:
             if isinstance(s, ast.Assign) and isinstance(s.value, ast.Call):
                 tg = ctx.cg.resolve(sp, s.value)
                 both = tg[0] if tg else None
-        for s in sel[0].orelse:
+        for s in _bf:
             if isinstance(s, ast.Assign) and isinstance(s.value, ast.Call):
                 tg = ctx.cg.resolve(sp, s.value)
                 only = tg[0] if tg else None
